@@ -205,6 +205,14 @@ class _Canon(ast.NodeTransformer):
 
     def _loop(self, node):
         self.generic_visit(node)
+        # `while True: if c: break` + REST  is  `while not c: REST`
+        if isinstance(node, ast.While) and isinstance(node.test, ast.Constant) and node.test.value is True and not node.orelse and len(node.body) > 1:
+            first = node.body[0]
+            if isinstance(first, ast.If) and not first.orelse and len(first.body) == 1 and isinstance(first.body[0], ast.Break) \
+                    and not any(isinstance(x, ast.Break) for st in node.body[1:] for x in ast.walk(st)):
+                t = first.test
+                node.test = t.operand if isinstance(t, ast.UnaryOp) and isinstance(t.op, ast.Not) else ast.copy_location(ast.UnaryOp(op=ast.Not(), operand=t), t)
+                node.body = node.body[1:]
         node.body = self._guards(node.body, True)
         # `while c: B; break` runs B at most once: it is `if c: B`
         if isinstance(node, ast.While) and not node.orelse and self._jumps(node.body, ast.Break) and len(node.body) > 1 \
@@ -220,6 +228,20 @@ class _Canon(ast.NodeTransformer):
 
     def visit_While(self, node):
         return self._loop(node)
+
+    def visit_Try(self, node):
+        self.generic_visit(node)
+        node.body = self._guards(node.body, False)
+        for h in node.handlers:
+            h.body = self._guards(h.body, False)
+        if node.orelse:
+            node.orelse = self._guards(node.orelse, False)
+        return node
+
+    def visit_With(self, node):
+        self.generic_visit(node)
+        node.body = self._guards(node.body, False)
+        return node
 
     def visit_FunctionDef(self, node):
         self.generic_visit(node)
